@@ -129,3 +129,38 @@ Proof.
     destruct OA as [_ OD]. destruct (OD (h0 :: hr)) as [[r Hr]|[e He]]; [rewrite Hr; exact I|rewrite He; reflexivity].
 Qed.
 End Strict.
+
+(* ---- find_all_links never raises (model): whatever the regular expression matched -------------------- *)
+Section Links.
+Variable T : tables.
+Variable O : oracles.
+Hypothesis OA : oracle_answers O.
+
+Lemma url_init_cases s : (exists u, url_init T O s = MOk u) \/ url_init T O s = MRaise URLParseError.
+Proof.
+  pose proof (url_init_total_strict T O OA s) as H. destruct (url_init T O s) as [u|e|w]; cbn in H.
+  - left. eauto.
+  - right. subst e. reflexivity.
+  - contradiction.
+Qed.
+
+Lemma fal_step_ok wt ds schemes t st sp : exists st', fal_step T O wt ds schemes t st sp = MOk st'.
+Proof.
+  unfold fal_step. destruct st as [prev_end ret]. destruct sp as [start end_].
+  destruct (url_init_cases (slice t start end_)) as [[u E]|E]; rewrite E; [|eauto].
+  destruct (u_scheme u) as [|c r].
+  - destruct ds as [d|]; [|eauto].
+    destruct (url_init_cases (d ++ [58; 47; 47] ++ slice t start end_)) as [[u2 E2]|E2]; rewrite E2; [|eauto].
+    destruct (match schemes with [] => false | _ :: _ => negb (mem_text (u_scheme u2) schemes) end); eauto.
+  - destruct (match schemes with [] => false | _ :: _ => negb (mem_text (c :: r) schemes) end); eauto.
+Qed.
+
+Theorem find_all_links_total wt ds schemes t spans : exists items, find_all_links T O wt ds schemes t spans = MOk items.
+Proof.
+  unfold find_all_links.
+  assert (L : forall spans st, exists st', fal_loop T O wt ds schemes t spans st = MOk st').
+  { induction spans0 as [|sp r IH]; intro st; cbn [fal_loop]; [eauto|].
+    destruct (fal_step_ok wt ds schemes t st sp) as [st' E]. rewrite E. cbn [mbind]. apply IH. }
+  destruct (L spans (0%nat, [])) as [[pe ret] E]. rewrite E. cbn [mbind]. eauto.
+Qed.
+End Links.
